@@ -1,7 +1,7 @@
 import TypstyleModel.Model.Printer.Markup
 /-! `math.rs`. -/
 namespace Typstyle
-open Pretty
+open Twin
 
 def isSpaceAt (o : Option ANode) : Bool := (o.map (·.kind == .space)).getD false
 
@@ -28,7 +28,7 @@ def mathStep (e : Env) (r : Rec) (ctx : Ctx) (acc : Doc × Bool) (node : ANode) 
   if isExpr node then pure (doc ++ (← r.expr (ctx.withModeIf .code atHash) node), false)
   else if node.kind == .space then pure (doc ++ (if hasLinebreak node.text then hardline else space), false)
   else if node.kind == .hash then pure (doc ++ e.syn "#", true)
-  else if isCommentKind node.kind then pure (doc ++ e.cmt node.text, false)
+  else if isCommentKind node.kind then pure (doc ++ e.cmtT node.text, false)
   else pure (doc ++ e.tok node.text, false)       -- LeftParen, RightParen, …
 
 /-- `convert_math`. -/
@@ -57,7 +57,7 @@ def convMathDelimited (e : Env) (r : Rec) (ctx : Ctx) (n : ANode) : M Doc := do
   let body ← flowM e ctx b.2 () (delimitedProducer r)
   let op ← r.expr ctx (← childOr (firstWhere n isExpr) "MathDelimited without open")
   let cl ← r.expr ctx (← childOr (lastWhere n isExpr) "MathDelimited without close")
-  pure ((((a.1 ++ body).nst e.cfg.tab) ++ b.1).enclose op cl)
+  pure ((((a.1 ++ body).nstTab) ++ b.1).enclose op cl)
 
 def attachProducer (e : Env) (r : Rec) (_ : Unit) (c : Ctx) (node : ANode) : M (Unit × Option FlowItem) := do
   if isExpr node then pure ((), tight (← r.expr c node))
